@@ -7,6 +7,7 @@ package runtime
 import (
 	"unsafe"
 
+	c "github.com/goplus/llgo/runtime/internal/clite"
 	"github.com/goplus/llgo/runtime/internal/clite/sync/atomic"
 	"github.com/goplus/llgo/runtime/internal/clite/time"
 	"github.com/goplus/llgo/runtime/internal/runtime/math"
@@ -110,10 +111,14 @@ const (
 
 func memclrHasPointers(ptr unsafe.Pointer, n uintptr) {
 	// bulkBarrierPreWrite(uintptr(ptr), 0, n)
-	// memclrNoHeapPointers(ptr, n)
+	memclrNoHeapPointers(ptr, n)
 }
 
+// memclrNoHeapPointers clears n bytes starting at ptr. The map code relies on
+// it: mapclear reuses the bucket array and needs its overflow pointers and
+// cells wiped.
 func memclrNoHeapPointers(ptr unsafe.Pointer, n uintptr) {
+	c.Memset(ptr, 0, n)
 }
 
 func fatal(s string) {
